@@ -110,7 +110,7 @@ class Project:
 
         print(f"Generating {self.project_dir}")
         try:
-            self.project_dir.mkdir()
+            self.project_dir.mkdir(parents=True)
         except FileExistsError:
             if not self.config.overwrite:
                 return [GeneratorError(detail="Directory already exists. Delete it or use the --overwrite option.")]
